@@ -1,7 +1,7 @@
 #!/usr/bin/env python3
-"""Regenerates MANIFEST.json from checks.json (claims) and na.json (not-applicable reasons)."""
-import json
-checks = json.load(open('checks.json'))
+"""Regenerates MANIFEST.json from checks/<ID>.json (claims) and na.json (not-applicable reasons)."""
+import json, os
+checks = {f[:-5]: json.load(open('checks/' + f)) for f in sorted(os.listdir('checks')) if f.endswith('.json')}
 na = json.load(open('na.json'))
 props = [json.loads(l)['id'] for l in open('properties.jsonl')]
 m = {
